@@ -128,14 +128,72 @@ theorem assign_refuses_undeclared (frames : Array Frame) (fuel env : Nat) (x : S
         | none => rfl
         | some p => simp only [hp] at h ⊢; exact ih p h
 
-/-- `x = v` on a declared name succeeds -/
-theorem assign_succeeds_if_declared (frames : Array Frame) (fuel env : Nat) (x : String) (v w : Val)
-    (h : lookupVar frames fuel env x = some w) : (assignVar frames fuel env x v).isSome := by
+/-- does the type declared for the nearest enclosing declaration of `x` admit `v`?  (Only annotated
+lambda parameters carry a declared type; every other variable admits everything.) -/
+def declaredTypeAdmits (frames : Array Frame) : Nat → Nat → String → Val → Bool
+  | 0, _, _, _ => true
+  | fuel + 1, env, x, v =>
+    match frames[env]? with
+    | none => true
+    | some fr =>
+      match lookupIn fr.vars x with
+      | some _ => typeOk fr.tys x v
+      | none =>
+        match fr.parent with
+        | some p => declaredTypeAdmits frames fuel p x v
+        | none => true
+
+/-- `x = v` on a declared name succeeds exactly when the declared type of that variable admits `v` -/
+theorem assign_succeeds_iff (frames : Array Frame) (fuel env : Nat) (x : String) (v w : Val)
+    (h : lookupVar frames fuel env x = some w) :
+    (assignVar frames fuel env x v).isSome ↔ declaredTypeAdmits frames fuel env x v = true := by
   induction fuel generalizing env with
   | zero => simp [lookupVar] at h
   | succ n ih =>
     unfold lookupVar at h
-    unfold assignVar
+    unfold assignVar declaredTypeAdmits
+    cases hfr : frames[env]? with
+    | none => simp [hfr] at h
+    | some fr =>
+      simp only [hfr] at h ⊢
+      cases hl : lookupIn fr.vars x with
+      | some w' => cases ht : typeOk fr.tys x v <;> simp
+      | none =>
+        simp only [hl] at h ⊢
+        cases hp : fr.parent with
+        | none => simp [hp] at h
+        | some p => simp only [hp] at h ⊢; exact ih p h
+
+/-- `x = v` on a declared name whose declared type admits `v` succeeds -/
+theorem assign_succeeds_if_declared (frames : Array Frame) (fuel env : Nat) (x : String) (v w : Val)
+    (h : lookupVar frames fuel env x = some w) (ht : declaredTypeAdmits frames fuel env x v = true) :
+    (assignVar frames fuel env x v).isSome :=
+  (assign_succeeds_iff frames fuel env x v w h).mpr ht
+
+/-- the declared type persists: `x = v` with a `v` that the declared type of `x` does not admit is
+refused (and, returning `none`, leaves the store unchanged) -/
+theorem assign_refuses_type_mismatch (frames : Array Frame) (fuel env : Nat) (x : String) (v w : Val)
+    (h : lookupVar frames fuel env x = some w) (ht : declaredTypeAdmits frames fuel env x v = false) :
+    assignVar frames fuel env x v = none := by
+  have h1 := assign_succeeds_iff frames fuel env x v w h
+  cases ha : assignVar frames fuel env x v with
+  | none => rfl
+  | some fs => rw [ha] at h1; simp [ht] at h1
+
+/-- a variable without a declared type (anything declared by `:=`, a loop, a `catch`, an unannotated
+parameter) admits every value -/
+theorem typeOk_undeclared (tys : List (String × Val)) (x : String) (v : Val) (h : lookupIn tys x = none) :
+    typeOk tys x v = true := by
+  simp [typeOk, h]
+
+/-- `drop_lhs` (the first half of `x op= e`) is NOT type-checked: it succeeds on every declared name -/
+theorem drop_succeeds_if_declared (frames : Array Frame) (fuel env : Nat) (x : String) (w : Val)
+    (h : lookupVar frames fuel env x = some w) : (dropVar frames fuel env x).isSome := by
+  induction fuel generalizing env with
+  | zero => simp [lookupVar] at h
+  | succ n ih =>
+    unfold lookupVar at h
+    unfold dropVar
     cases hfr : frames[env]? with
     | none => simp [hfr] at h
     | some fr =>
@@ -366,9 +424,9 @@ theorem call_absorbs_return (fuel : Nat) (st : State) (env cenv : Nat) (body : E
   cases fuel with
   | zero => simp [eval] at hb
   | succ n =>
-    simp only [callVal, evalList, bindArgs, List.filter_nil, List.length_nil, Nat.sub_self, List.drop_nil,
-      List.map_nil, List.any_nil, List.filterMap_nil, List.append_nil]
-    simp [hfr]
+    simp only [callVal, evalList, bindArgs, defaultsInPlay, annSlots, List.filter_nil,
+      List.length_nil, List.any_nil, List.filterMap_nil, List.append_nil]
+    simp [hfr, checkBinds]
     have : (newFrame st cenv).1.frames.setIfInBounds (newFrame st cenv).2 { vars := [], parent := some cenv }
         = (newFrame st cenv).1.frames := by
       simp [newFrame, push_setIfInBounds_last]
@@ -380,14 +438,226 @@ theorem call_passes_break (fuel : Nat) (st : State) (env cenv : Nat) (body : Exp
     (st' : State)
     (hb : eval (fuel + 1) ((newFrame st cenv).1) (newFrame st cenv).2 body = (.brk n v, st')) :
     callVal (fuel + 2) st env (.closure [] body cenv) [] = (.brk n v, st') := by
-  simp only [callVal, evalList, bindArgs, List.filter_nil, List.length_nil, Nat.sub_self, List.drop_nil,
-    List.map_nil, List.any_nil, List.filterMap_nil, List.append_nil]
+  simp only [callVal, evalList, bindArgs, defaultsInPlay, annSlots, List.filter_nil,
+    List.length_nil, List.any_nil, List.filterMap_nil, List.append_nil]
   have hfr := newFrame_empty st cenv
-  simp [hfr]
+  simp [hfr, checkBinds]
   have : (newFrame st cenv).1.frames.setIfInBounds (newFrame st cenv).2 { vars := [], parent := some cenv }
       = (newFrame st cenv).1.frames := by
     simp [newFrame, push_setIfInBounds_last]
   simp [this, hb]
+
+/-! ## 7b. type-annotated parameters (`\x: T -> …`): the annotation expressions are evaluated at call
+time, first of all and left to right, in the new scope; then the defaults in play; then the parameters
+are bound one by one, an annotated one only if its annotation is a type and its argument has that type;
+the declared type stays attached to the variable -/
+
+/-- the first annotated parameter whose annotation is not a type, or whose argument is not of that type,
+stops the binding: nothing further is bound -/
+theorem checkBinds_head_fails (t : Val) (slots : List (Option Val)) (x : String) (v : Val)
+    (rest vars tys : List (String × Val)) (h : isTypeVal t = false ∨ hasType t v = false) :
+    checkBinds (some t :: slots) ((x, v) :: rest) vars tys = (false, vars, tys) := by
+  rcases h with h | h <;> simp [checkBinds, h]
+
+theorem checkBinds_head_ok (t : Val) (slots : List (Option Val)) (x : String) (v : Val)
+    (rest vars tys : List (String × Val)) (h1 : isTypeVal t = true) (h2 : hasType t v = true) :
+    checkBinds (some t :: slots) ((x, v) :: rest) vars tys =
+      checkBinds slots rest (vars ++ [(x, v)]) (tys ++ [(x, t)]) := by
+  simp [checkBinds, h1, h2]
+
+/-- exactly when does the binding of a parameter list go through?  When every annotated position holds a
+type that its argument has. -/
+theorem checkBinds_ok_iff (binds : List (String × Val)) :
+    ∀ (slots : List (Option Val)) (vars tys : List (String × Val)),
+      (checkBinds slots binds vars tys).1 = true ↔
+        ∀ (i : Nat) (t : Val) (x : String) (v : Val), slots[i]? = some (some t) → binds[i]? = some (x, v) → isTypeVal t = true ∧ hasType t v = true := by
+  induction binds with
+  | nil => intro slots vars tys; simp [checkBinds]
+  | cons b rest ih =>
+    intro slots vars tys
+    obtain ⟨x, v⟩ := b
+    cases slots with
+    | nil =>
+      simp only [checkBinds]
+      rw [ih]
+      simp
+    | cons s slots =>
+      cases s with
+      | none =>
+        simp only [checkBinds]
+        rw [ih]
+        constructor
+        · intro h i t x' v' hs hb
+          cases i with
+          | zero => simp at hs
+          | succ j => exact h j t x' v' (by simpa using hs) (by simpa using hb)
+        · intro h i t x' v' hs hb
+          exact h (i + 1) t x' v' (by simpa using hs) (by simpa using hb)
+      | some t =>
+        by_cases hok : isTypeVal t = true ∧ hasType t v = true
+        · rw [checkBinds_head_ok _ _ _ _ _ _ _ hok.1 hok.2, ih]
+          constructor
+          · intro h i t' x' v' hs hb
+            cases i with
+            | zero =>
+              simp only [List.getElem?_cons_zero, Option.some.injEq, Prod.mk.injEq] at hs hb
+              obtain ⟨rfl, rfl⟩ := hb
+              subst hs
+              exact hok
+            | succ j => exact h j t' x' v' (by simpa using hs) (by simpa using hb)
+          · intro h i t' x' v' hs hb
+            exact h (i + 1) t' x' v' (by simpa using hs) (by simpa using hb)
+        · have hf : isTypeVal t = false ∨ hasType t v = false := by
+            by_cases h1 : isTypeVal t = true
+            · right; simpa [h1] using hok
+            · left; simpa using h1
+          rw [checkBinds_head_fails _ _ _ _ _ _ _ hf]
+          simp only [Bool.false_eq_true, false_iff]
+          intro h
+          exact hok (h 0 t x v (by simp) (by simp))
+
+/-- the state in which a function body starts (or in which a failed binding leaves the call): the new
+scope `ee` holds exactly `vars`, with declared types `tys` -/
+def withParams (st : State) (ee : Nat) (fr : Frame) (vars tys : List (String × Val)) : State :=
+  { st with frames := st.frames.setIfInBounds ee { fr with vars := vars, tys := tys } }
+
+/-- **an annotated parameter that does not accept its argument makes the call raise, and the body does
+not run.**  General form: the annotations evaluate (first), the defaults in play evaluate, the arguments
+are distributed; if then some annotated position fails its check, the call raises, and the resulting
+state — the new scope holding the parameters bound before the failing one — does not mention the body. -/
+theorem call_annotation_failure (fuel : Nat) (st st1 st2 : State) (env cenv : Nat) (ps : List Param)
+    (body : Expr) (args tvs dvs : List Val) (inPlay : List Expr) (binds : List (String × Val)) (fr : Frame)
+    (hA : evalList fuel (newFrame st cenv).1 (newFrame st cenv).2 (ps.filterMap Param.ann) = (.ok tvs, st1))
+    (hD : defaultsInPlay args.length ps 0 false [] = some inPlay)
+    (hN : (!ps.any Param.isSplat && ps.length != args.length + inPlay.length) = false)
+    (hE : evalList fuel st1 (newFrame st cenv).2 inPlay = (.ok dvs, st2))
+    (hB : bindArgs ps args dvs = some binds)
+    (hF : st2.frames[(newFrame st cenv).2]? = some fr)
+    (hC : (checkBinds (annSlots ps tvs) binds [] []).1 = false) :
+    callVal (fuel + 1) st env (.closure ps body cenv) args =
+      (.thrown .err, withParams st2 (newFrame st cenv).2 fr
+        (checkBinds (annSlots ps tvs) binds [] []).2.1 (checkBinds (annSlots ps tvs) binds [] []).2.2) := by
+  rcases hcb : checkBinds (annSlots ps tvs) binds [] [] with ⟨okb, vars, tys⟩
+  rw [hcb] at hC
+  simp only at hC
+  subst hC
+  simp only [callVal, hA, hD, hN, hE, hB, hF, hcb, withParams]
+  simp
+
+/-- in particular the outcome is the same for every body -/
+theorem call_annotation_failure_ignores_body (fuel : Nat) (st st1 st2 : State) (env cenv : Nat) (ps : List Param)
+    (body body' : Expr) (args tvs dvs : List Val) (inPlay : List Expr) (binds : List (String × Val)) (fr : Frame)
+    (hA : evalList fuel (newFrame st cenv).1 (newFrame st cenv).2 (ps.filterMap Param.ann) = (.ok tvs, st1))
+    (hD : defaultsInPlay args.length ps 0 false [] = some inPlay)
+    (hN : (!ps.any Param.isSplat && ps.length != args.length + inPlay.length) = false)
+    (hE : evalList fuel st1 (newFrame st cenv).2 inPlay = (.ok dvs, st2))
+    (hB : bindArgs ps args dvs = some binds)
+    (hF : st2.frames[(newFrame st cenv).2]? = some fr)
+    (hC : (checkBinds (annSlots ps tvs) binds [] []).1 = false) :
+    callVal (fuel + 1) st env (.closure ps body cenv) args = callVal (fuel + 1) st env (.closure ps body' cenv) args := by
+  rw [call_annotation_failure fuel st st1 st2 env cenv ps body args tvs dvs inPlay binds fr hA hD hN hE hB hF hC,
+    call_annotation_failure fuel st st1 st2 env cenv ps body' args tvs dvs inPlay binds fr hA hD hN hE hB hF hC]
+
+/-- an exit of an annotation expression (a raised error — e.g. an unknown name —, also `return`) leaves the
+call at once: no default is evaluated, nothing is bound, the body does not run -/
+theorem call_annotation_exit (fuel : Nat) (st st1 : State) (env cenv : Nat) (ps : List Param) (body : Expr)
+    (args : List Val) (r : Res)
+    (hA : evalList fuel (newFrame st cenv).1 (newFrame st cenv).2 (ps.filterMap Param.ann) = (.stop r, st1)) :
+    callVal (fuel + 1) st env (.closure ps body cenv) args = (r, st1) := by
+  simp only [callVal, hA]
+
+/-- the one-parameter case `(\x: a -> body)(v)`: the annotation `a` evaluates to `t` in the new scope … -/
+theorem single_param_unfold (fuel : Nat) (st st1 : State) (env cenv : Nat) (x : String) (a body : Expr)
+    (t v : Val) (fr : Frame)
+    (ha : eval (fuel + 1) (newFrame st cenv).1 (newFrame st cenv).2 a = (.val t, st1))
+    (hfr : st1.frames[(newFrame st cenv).2]? = some fr) :
+    callVal (fuel + 3) st env (.closure [.mk x none false (some a)] body cenv) [v] =
+      (if (checkBinds [some t] [(x, v)] [] []).1 then
+         match eval (fuel + 2) (withParams st1 (newFrame st cenv).2 fr
+             (checkBinds [some t] [(x, v)] [] []).2.1 (checkBinds [some t] [(x, v)] [] []).2.2)
+             (newFrame st cenv).2 body with
+         | (.ret w, st') => (.val w, st')
+         | r => r
+       else
+         (.thrown .err, withParams st1 (newFrame st cenv).2 fr
+             (checkBinds [some t] [(x, v)] [] []).2.1 (checkBinds [some t] [(x, v)] [] []).2.2)) := by
+  have hA : evalList (fuel + 2) (newFrame st cenv).1 (newFrame st cenv).2 [a] = (.ok [t], st1) := by
+    simp [evalList, ha]
+  simp only [callVal, List.filterMap_cons, Param.ann, List.filterMap_nil, hA]
+  have hnil : evalList (fuel + 2) st1 (newFrame st cenv).2 [] = (.ok [], st1) := by
+    rw [evalList.eq_def]
+  simp only [defaultsInPlay, Param.isSplat, Param.dflt, bindArgs, Param.name, annSlots, Param.ann]
+  rcases hcb : checkBinds [some t] [(x, v)] [] [] with ⟨okb, vars, tys⟩
+  cases okb
+  · simp [hcb, withParams, hnil, hfr, Param.isSplat, Param.name]
+  · simp [hcb, withParams, hnil, hfr, Param.isSplat, Param.name]
+    generalize eval (fuel + 2) _ (newFrame st cenv).2 body = r
+    rcases r with ⟨r, s⟩
+    cases r <;> rfl
+
+/-- … if `t` is a type the argument does not have, the call raises and the body does not run -/
+theorem call_annotation_mismatch_raises (fuel : Nat) (st st1 : State) (env cenv : Nat) (x : String)
+    (a body : Expr) (t v : Val) (fr : Frame)
+    (ha : eval (fuel + 1) (newFrame st cenv).1 (newFrame st cenv).2 a = (.val t, st1))
+    (hfr : st1.frames[(newFrame st cenv).2]? = some fr)
+    (hm : hasType t v = false) :
+    callVal (fuel + 3) st env (.closure [.mk x none false (some a)] body cenv) [v] =
+      (.thrown .err, withParams st1 (newFrame st cenv).2 fr [] []) := by
+  rw [single_param_unfold fuel st st1 env cenv x a body t v fr ha hfr,
+    checkBinds_head_fails t [] x v [] [] [] (Or.inr hm)]
+  simp
+
+/-- … if `t` is not a type at all (`to_type` fails), the call raises, whatever the argument is -/
+theorem call_annotation_not_a_type_raises (fuel : Nat) (st st1 : State) (env cenv : Nat) (x : String)
+    (a body : Expr) (t v : Val) (fr : Frame)
+    (ha : eval (fuel + 1) (newFrame st cenv).1 (newFrame st cenv).2 a = (.val t, st1))
+    (hfr : st1.frames[(newFrame st cenv).2]? = some fr)
+    (hm : isTypeVal t = false) :
+    callVal (fuel + 3) st env (.closure [.mk x none false (some a)] body cenv) [v] =
+      (.thrown .err, withParams st1 (newFrame st cenv).2 fr [] []) := by
+  rw [single_param_unfold fuel st st1 env cenv x a body t v fr ha hfr,
+    checkBinds_head_fails t [] x v [] [] [] (Or.inl hm)]
+  simp
+
+/-- … and if `t` is a type the argument has, the body runs with `x` bound to the argument and `t`
+recorded as the declared type of `x` -/
+theorem call_annotation_ok_runs_body (fuel : Nat) (st st1 : State) (env cenv : Nat) (x : String)
+    (a body : Expr) (t v : Val) (fr : Frame)
+    (ha : eval (fuel + 1) (newFrame st cenv).1 (newFrame st cenv).2 a = (.val t, st1))
+    (hfr : st1.frames[(newFrame st cenv).2]? = some fr)
+    (h1 : isTypeVal t = true) (h2 : hasType t v = true) :
+    callVal (fuel + 3) st env (.closure [.mk x none false (some a)] body cenv) [v] =
+      (match eval (fuel + 2) (withParams st1 (newFrame st cenv).2 fr [(x, v)] [(x, t)]) (newFrame st cenv).2 body with
+       | (.ret w, st') => (.val w, st')
+       | r => r) := by
+  rw [single_param_unfold fuel st st1 env cenv x a body t v fr ha hfr,
+    checkBinds_head_ok t [] x v [] [] [] h1 h2]
+  simp [checkBinds]
+
+/-- the declared type stays with the variable: assigning a value of another kind to a typed parameter
+raises and changes nothing -/
+theorem typed_variable_assign_mismatch_raises (fuel : Nat) (st st' : State) (env : Nat) (x : String) (e : Expr)
+    (v w t : Val) (fr : Frame)
+    (he : eval fuel st env e = (.val v, st'))
+    (hfr : st'.frames[env]? = some fr) (hx : lookupIn fr.vars x = some w) (ht : lookupIn fr.tys x = some t)
+    (hm : hasType t v = false) :
+    eval (fuel + 1) st env (.assign x e) = (.thrown .err, st') := by
+  have : assignVar st'.frames (st'.frames.size + 1) env x v = none := by
+    simp [assignVar, hfr, hx, typeOk, ht, hm]
+  simp [eval, he, this]
+
+/-- the builtin type names denote types; other values do not, except `null` (the null type) -/
+theorem isTypeVal_cases : isTypeVal (.builtin "int") = true ∧ isTypeVal (.builtin "str") = true ∧
+    isTypeVal (.builtin "list") = true ∧ isTypeVal (.builtin "anything") = true ∧ isTypeVal .null = true ∧
+    isTypeVal (.int 5) = false ∧ isTypeVal (.str "int") = false ∧ isTypeVal (.builtin "len") = false := by
+  decide
+
+/-- `anything` accepts every value; `int` exactly the integers -/
+theorem hasType_anything (v : Val) : hasType (.builtin "anything") v = true := by
+  cases v <;> rfl
+theorem hasType_int (v : Val) : hasType (.builtin "int") v = true ↔ ∃ n, v = .int n := by
+  cases v <;> simp [hasType]
+
 
 /-! ## 8. sequencing, conditionals and the four exits -/
 
@@ -472,5 +742,35 @@ example :
         .declare (.ident "g") (.call (.ident "mk") []),
         .list [.call (.ident "g") [], .call (.ident "g") []]] false)).1
       matches .val (.list [.int 1, .int 2]) := by decide +kernel
+
+/-- type-annotated parameters: `f := \x: int -> x + 1; [f(3), try f("s") catch _ -> "E"]` -/
+example :
+    (runProgram 50 (.seq [
+        .declare (.ident "f") (.lambda [.mk "x" none false (some (.ident "int"))] (.op "+" (.ident "x") (.int 1))),
+        .list [.call (.ident "f") [.int 3], .try_ (.call (.ident "f") [.str "s"]) .underscore (.str "E")]] false)).1
+      matches .val (.list [.int 4, .str "E"]) := by decide +kernel
+
+/-- order at a call: all annotations (left to right), then the defaults in play, then the checks — here the
+first parameter's check fails after everything was evaluated:
+`f := \a: (print("A1"); str), b: (print("A2"); int) = (print("D"); 5) -> a; try f(1) catch _ -> "E"` prints A1 A2 D -/
+example :
+    (runProgram 50 (.seq [
+        .declare (.ident "f") (.lambda [
+            .mk "a" none false (some (.seq [.call (.ident "print") [.str "A1"], .ident "str"] false)),
+            .mk "b" (some (.seq [.call (.ident "print") [.str "D"], .int 5] false)) false
+              (some (.seq [.call (.ident "print") [.str "A2"], .ident "int"] false))] (.ident "a")),
+        .try_ (.call (.ident "f") [.int 1]) .underscore (.str "E")] false)).2.out = ["D", "A2", "A1"] := by
+  decide +kernel
+
+/-- the declared type persists: `(\x: int -> ((try (x = "s") catch _ -> print("tc")); (try (x $= "s") catch _ ->
+print("tc2")); x))(1)`: the plain assignment is refused (x stays 1), the op-assignment first drops x (no type
+check: "overriding type") and then fails to store the string, leaving null -/
+example :
+    (runProgram 50 (.call (.lambda [.mk "x" none false (some (.ident "int"))] (.seq [
+        .try_ (.assign "x" (.str "s")) .underscore (.call (.ident "print") [.str "tc"]),
+        .declare (.ident "y") (.ident "x"),
+        .try_ (.opassign "x" "$" (.str "s")) .underscore (.call (.ident "print") [.str "tc2"]),
+        .list [.ident "y", .ident "x"]] false)) [.int 1])).1
+      matches .val (.list [.int 1, .null]) := by decide +kernel
 
 end Noulith.C05
